@@ -80,6 +80,12 @@ def dropWsLeft : Str → Str
 /-- `s.strip()` -/
 def stripWs (s : Str) : Str := (dropWsLeft (dropWsLeft s).reverse).reverse
 
+/-- `s.rstrip()` -/
+def rstripWs (s : Str) : Str := (dropWsLeft s.reverse).reverse
+
+/-- `s.lstrip()` -/
+def lstripWs (s : Str) : Str := dropWsLeft s
+
 /-- `re.sub("([A-Z])", "-\\1", s)`: a hyphen before every ASCII capital letter -/
 def camelHyphen (s : Str) : Str := s.flatMap (fun c => if 65 ≤ c ∧ c ≤ 90 then [45, c] else [c])
 
